@@ -19,7 +19,7 @@ def main(tier, seed):
         required={"native.ok_agree": 1000, "native.err_agree": 1000, "native.reject_BadBool": 10, "native.reject_BadUtf8": 10,
                   "native.reject_OutOfRange": 10, "native.reject_DuplicateKey": 10, "native.reject_BadLevel": 10,
                   "native.cost_measured": 500, "native.truncations": 1000, "native.corruptions": 1000,
-                  "native.lying_prefix_cases": 1000, "asan.clean_runs": 1, "miri.clean_shards": 16, "native.string_position_cases": 50000,
+                  "native.lying_prefix_cases": 1000, "compiler.runs": 100, "asan.clean_runs": 1, "miri.clean_shards": 16, "native.string_position_cases": 50000,
                   **({"fuzz.executions": 500000} if tier == "thorough" else {})},
         assumptions=["non-minimal var-int encodings are accepted (the statement only rejects out-of-range values)",
                      "cost clause decided on resident memory (VmHWM growth <= 64 MiB) and thread CPU time (<= 2 s) for inputs "
